@@ -10,7 +10,7 @@ G1 lookup: exact name first, synonyms case-insensitively, wildcards on request;
 T1 no silent narrowing of an integer value.
 """
 from ..linrel import Lin, GE, LE, GT, LT, infeasible, entails
-from ..cfg import Facts, kids, strip, walk, cv, render, short_loc, call_args, TRANSPARENT, call_object
+from ..cfg import reach_calls, expand_locals, norm_facts, xrender, Facts, kids, strip, walk, cv, render, short_loc, call_args, TRANSPARENT, call_object
 import re
 from ..facts import export_many, AnalysisBroken
 from .. import units
@@ -45,7 +45,7 @@ ASSUMPTIONS = ["option texts are NUL-terminated C strings (getenv / argv)",
 TRUSTED = ["clang 14 front end + CFG builder", "tool/mpx.cc", "mpsa/cfg.py", "mpsa/linrel.py", "mpsa/rules/C11.py"]
 
 FN = [r"\(anon\)::Skip[A-Za-z]*", r"SkipNonSpaces", r"mp::BasicSolver::ParseOptionString",
-      r"mp::BasicSolver::ParseOptions", r"mp::internal::OptionHelper::Parse", r"mp::internal::quoted",
+      r"mp::BasicSolver::ParseOptions", r"mp::BasicSolver::ParseOptions::.*", r"mp::internal::OptionHelper::Parse", r"mp::internal::quoted",
       r"mp::TypedSolverOption::Parse", r"mp::SolverOptionManager::FindOption",
       r"mp::SolverOptionManager::FindOption::.*",
       r"mp::BasicSolver::HandleUnknownOption", r"mp::BasicSolver::ReportError",
@@ -285,24 +285,28 @@ def run(rep, ctx):
     if not po:
         raise AnalysisBroken("BasicSolver::ParseOptions not found")
     f = po[0]
-    calls = [c for c in f.walk() if c["k"] == "CXXMemberCallExpr" and
-             c.get("callee") == "mp::BasicSolver::ParseOptionString"]
+    # ParseOptionString calls made by ParseOptions itself or through a local helper / lambda; the argument is
+    # resolved into ParseOptions' own terms (helper parameters replaced, named values looked through)
+    reached = list(reach_calls(F, f, lambda c: c["k"] == "CXXMemberCallExpr" and c.get("callee") == "mp::BasicSolver::ParseOptionString"))
     src = {}
-    for c in calls:
+    calls = []
+    for anchor, c, res, owner in reached:
         a = strip(call_args(c)[0])
-        kind = "?"
-        if a["k"] == "DeclRefExpr":
+        txt = render(res(expand_locals(owner, a, 0, True))).replace(" ", "")
+        if owner is f and a["k"] == "DeclRefExpr":
             vd = [v for v in f.walk() if v["k"] == "VarDecl" and v.get("declId") == a.get("declId")]
-            init = render(kids(vd[0])[0]) if vd and kids(vd[0]) else ""
-            if "getenv" in init and "mp_options" in init:
-                kind = "mp_options"
-            elif "getenv" in init and "exe_basename" in init:
-                kind = "exe_options"
-            elif "getenv" in init and "name_" in init:
-                kind = "name_options"
-            elif "argv" in init:
-                kind = "argv"
-        src.setdefault(kind, []).append(c)
+            txt = render(kids(vd[0])[0]).replace(" ", "") if vd and kids(vd[0]) else txt
+        kind = "?"
+        if "getenv" in txt and "mp_options" in txt:
+            kind = "mp_options"
+        elif "getenv" in txt and "exe_basename" in txt:
+            kind = "exe_options"
+        elif "getenv" in txt and "name_" in txt:
+            kind = "name_options"
+        elif "argv" in txt:
+            kind = "argv"
+        src.setdefault(kind, []).append(anchor)
+        calls.append(anchor)
     for need in ("mp_options", "exe_options", "name_options", "argv"):
         p1.check(len(src.get(need, [])) == 1, "source|%s" % need, short_loc(f.loc),
                  "%d ParseOptionString call(s) fed from %s" % (len(src.get(need, [])), need))
@@ -503,8 +507,9 @@ def run(rep, ctx):
     h = fo[0]
     find = [c for c in h.walk() if c["k"] == "CXXMemberCallExpr" and c.get("callee", "").endswith("::find")]
     wc = [c for c in h.walk() if c["k"] == "CXXMemberCallExpr" and c.get("callee", "").endswith("::wc_match")]
-    loops = [n for n in h.walk() if n["k"] == "ForStmt"]
-    g1.check(len(find) == 1 and loops and all(h.cfg.dominates(find[0], strip_first(l)) for l in loops),
+    loops = [n for n in h.walk() if n["k"] in ("ForStmt", "CXXForRangeStmt", "WhileStmt")]
+    scan_calls = wc + [c for c in h.walk() if c["k"] == "CXXMemberCallExpr" and c.get("callee", "").endswith("::inline_synonyms")]
+    g1.check(len(find) == 1 and loops and scan_calls and all(h.cfg.dominates(find[0], c) for c in scan_calls),
              "exact-name-first", short_loc(h.loc), "options_.find(name) precedes the synonym/wildcard scan")
     for c in wc:
         fs = h.cfg.facts_at(c)
